@@ -505,6 +505,30 @@ func main() {
 	}
 	fmt.Fprintf(&sb, "def testRuneWidth : Int := %s\ndef testControlCodeWidth : Int := %s\ndef fallbackWidth : Int := %s\n\n", rw[0], cw[0], fb)
 
+	// 12b. the AutoVar commands of the shipped command_config.json (names only, sorted)
+	{
+		raw, err := os.ReadFile(filepath.Join(repo, "command_config.json"))
+		if err != nil {
+			fail("command_config.json")
+		}
+		var cc struct {
+			AutoVarCommands map[string]json.RawMessage `json:"autovar_commands"`
+		}
+		if err := json.Unmarshal(raw, &cc); err != nil {
+			fail("command_config.json: " + err.Error())
+		}
+		ns := []string{}
+		for k := range cc.AutoVarCommands {
+			ns = append(ns, k)
+		}
+		sort.Strings(ns)
+		qs := []string{}
+		for _, k := range ns {
+			qs = append(qs, leanStr(k))
+		}
+		fmt.Fprintf(&sb, "def shippedAutoVarCommands : List String := [%s]\n\n", strings.Join(qs, ", "))
+	}
+
 	// 13. Unicode classes used by the lexer (Go standard library tables of the toolchain in use)
 	sb.WriteString(leanRanges("unicodeLetter", rangesOf(unicode.Letter)))
 	sb.WriteString(leanRanges("unicodeDigit", rangesOf(unicode.Digit)))
